@@ -949,24 +949,32 @@ Proof.
 Qed.
 Print Assumptions c07_file_roundtrip_with_names.
 
-(* REFUTED without the premise on the names (known class
-   cram-read-name-with-nul-byte-shifts-names): the writer accepts a name with a NUL byte, and the
-   records of that slice read back with shifted names - `a\0b`, `c`, `d` come back as `a`, `b`, `c` *)
+(* Without the premise on the names: the class cram-read-name-with-nul-byte-shifts-names (the
+   writer accepted a name with a NUL byte and the records of that slice read back with shifted
+   names - `a\0b`, `c`, `d` came back as `a`, `b`, `c`) is repaired in /repo 61aefd0: the
+   ByteArrayStop encoder refuses a value that holds its stop byte, so a stream with a NUL byte in a
+   name IS REJECTED with InvalidInput (FileNames.stop_byte_refused = true) *)
 Definition names_ex (nm : list N) (pos : N) : samrec :=
   samrec_of 65 (Some nm) (Some 0) (Some pos) [(KM, 4)] [67;71;84;65] [30;30;30;30] None None 0%Z.
-Theorem c07_names_nul_refuted : exists refs rps ss out,
-  (1 <= rps)%nat /\ file_rt_names refs rps ss = MOk out /\ map m_name out <> map s_name ss.
-Proof.
-  exists [file_ex_ref], 3%nat, [names_ex [97;0;98] 2; names_ex [99] 6; names_ex [100] 10].
-  eexists. split; [repeat constructor|]. split; [vm_compute; reflexivity|]. vm_compute. discriminate.
-Qed.
-Print Assumptions c07_names_nul_refuted.
+Theorem c07_names_nul_rejected : forall refs rps ss, stream_has_nul ss = true ->
+  file_rt_names refs rps ss = MWriteErr /\ file_name_blocks refs rps ss = None.
+Proof. exact file_rt_names_nul_rejected. Qed.
+Print Assumptions c07_names_nul_rejected.
+
+Example c07_names_nul_witness :
+  stream_has_nul [names_ex [97;0;98] 2; names_ex [99] 6; names_ex [100] 10] = true /\
+  file_rt_names [file_ex_ref] 3 [names_ex [97;0;98] 2; names_ex [99] 6; names_ex [100] 10] = MWriteErr /\
+  (* the value-level file, which knows nothing of the byte level, would keep the names *)
+  match file_rt [file_ex_ref] 3 [names_ex [97;0;98] 2; names_ex [99] 6; names_ex [100] 10] with
+  | MOk out => map m_name out = [Some [97;0;98]; Some [99]; Some [100]]
+  | _ => False
+  end.
+Proof. vm_compute. repeat split; reflexivity. Qed.
 
 Example c07_names_nonvacuous :
   stream_names_ok [file_ex_a; file_ex_b; file_ex_c] /\
   file_name_blocks [file_ex_ref] 2 [file_ex_a; file_ex_b; file_ex_c] = Some [[113;0;113;0]; [113;0]] /\
-  file_name_blocks [file_ex_ref] 3 [names_ex [97;0;98] 2; names_ex [99] 6; names_ex [100] 10]
-    = Some [[97;0;98;0;99;0;100;0]].
+  file_name_blocks [file_ex_ref] 3 [names_ex [97;0;98] 2; names_ex [99] 6; names_ex [100] 10] = None.
 Proof.
   split; [|split; vm_compute; reflexivity].
   repeat constructor; cbn; try (intros [H|[]]; discriminate); discriminate.
@@ -1000,15 +1008,30 @@ Proof.
 Qed.
 Print Assumptions c07_record_roundtrip_bytes_partial.
 
-(* REFUTED with a NUL byte in a soft clip (known class
-   cram-clip-or-insertion-base-nul-byte-cuts-feature): the writer accepts POS 5, CIGAR 2S3M, bases
-   `A\0ACG`; the value-level model reads it back unchanged, the byte level - and the real reader -
-   as 1S4M AACGT *)
-Theorem c07_features_stop_refuted : exists refseq seq quals ops start,
-  roundtrip default_sm refseq seq quals ops start = ROk ops seq /\
-  roundtrip_stop default_sm refseq seq quals ops start = ROk [(KS, 1); (KM, 4)] [65;65;67;71;84].
-Proof.
-  exists file_ex_ref, [65;0;65;67;71], [30;30;30;30;30], [(KS, 2); (KM, 3)], 5.
-  split; vm_compute; reflexivity.
-Qed.
-Print Assumptions c07_features_stop_refuted.
+(* With a NUL byte in a soft clip / insertion: the class
+   cram-clip-or-insertion-base-nul-byte-cuts-feature (POS 5, CIGAR 2S3M, bases `A\0ACG` read back as
+   1S4M AACGT) is repaired in /repo 61aefd0.  Now, for EVERY record, the byte level of the SC / IN
+   series either changes nothing or the writer answers InvalidInput - never a silent change *)
+Theorem c07_features_stop_same_or_refused : forall sm refseq seq quals ops start,
+  roundtrip_stop sm refseq seq quals ops start = roundtrip sm refseq seq quals ops start \/
+  roundtrip_stop sm refseq seq quals ops start = RInvalidInput.
+Proof. exact roundtrip_stop_same_or_refused. Qed.
+Print Assumptions c07_features_stop_same_or_refused.
+
+(* ... and a record that reaches the encoder with a NUL byte in a stored soft clip / insertion IS
+   REJECTED with InvalidInput *)
+Theorem c07_features_stop_nul_rejected : forall sm refseq seq quals ops start ws fs,
+  len (record_quals (record_read_length seq ops) quals) = record_read_length seq ops ->
+  start <= len refseq ->
+  record_features refseq seq (record_quals (record_read_length seq ops) quals) ops start = Some ws ->
+  encode_features sm ws = Some fs -> forallb fnostopb fs = false ->
+  roundtrip_stop sm refseq seq quals ops start = RInvalidInput.
+Proof. exact roundtrip_stop_nul_rejected. Qed.
+Print Assumptions c07_features_stop_nul_rejected.
+
+Example c07_features_stop_witness :
+  roundtrip default_sm file_ex_ref [65;0;65;67;71] [30;30;30;30;30] [(KS, 2); (KM, 3)] 5
+    = ROk [(KS, 2); (KM, 3)] [65;0;65;67;71] /\
+  roundtrip_stop default_sm file_ex_ref [65;0;65;67;71] [30;30;30;30;30] [(KS, 2); (KM, 3)] 5 = RInvalidInput /\
+  roundtrip_stop default_sm file_ex_ref [65;65;0;67;71] [30;30;30;30;30] [(KM, 1); (KI, 2); (KM, 2)] 5 = RInvalidInput.
+Proof. vm_compute. repeat split; reflexivity. Qed.
